@@ -96,12 +96,18 @@ def check(repo: Repo, run: Run) -> None:
     pk = repo.cls("pykdebugparser", "PyKdebugParser")
 
     # the line builders are found through the public listings (a renamed helper keeps its role)
-    BUILDER = {conv: pipeline.line_builder(repo, interp, public, conv)
-               for public, conv in (("formatted_kevents", "_format_kevent"), ("formatted_traces", "_format_trace"),
-                                    ("formatted_callstacks", "_format_callstack"))}
+    # (a listing whose line builder cannot be found stops the rules about lines, not the rules about who writes the tables:
+    # those are judged first-class below and the analysis error is raised at the end)
+    deferred = None
+    try:
+        BUILDER = {conv: pipeline.line_builder(repo, interp, public, conv)
+                   for public, conv in (("formatted_kevents", "_format_kevent"), ("formatted_traces", "_format_trace"),
+                                        ("formatted_callstacks", "_format_callstack"))}
+    except AnalysisError as ex:
+        BUILDER, deferred = None, ex
 
     # ------------------------------------------------------------------ R1
-    for conv_name, expected in EXPECTED_COLUMNS.items():
+    for conv_name, expected in (EXPECTED_COLUMNS.items() if BUILDER is not None else ()):
         name = BUILDER[conv_name]
         fn = repo.method("pykdebugparser", "PyKdebugParser", name)
         rec = interp.run(pk.module, fn, self_cls=pk)
@@ -225,62 +231,69 @@ def check(repo: Repo, run: Run) -> None:
     run.ob("R2", MOD, "whole package", "tables are only updated in place", not rebinds, "see above",
            facts={"methods_scanned": len(units)}, nontrivial=True)
 
-    # ------------------------------------------------------------------ R3 unknown thread
-    fp = pk.methods.get("_format_process")
-    if fp is None:
-        # the helper every line builder calls with the emitting thread's id
-        kb_fn = pk.methods[BUILDER["_format_kevent"]]
-        kb_rec = interp.run(pk.module, kb_fn, self_cls=pk)
-        tid_arg = T("attr", (param(kb_fn.args.args[1].arg), "tid"))
-        cands = [c.func.a[1] for c in kb_rec.calls if c.func.op == "attr" and c.func.a[0] == SELF and c.args == (tid_arg,)
-                 and c.func.a[1] in pk.methods and c.where.endswith("." + kb_fn.name)]
-        fp = pk.methods.get(cands[0]) if cands else None
-    if fp is None:
-        raise AnalysisError("anchor vanished: the process-column helper of PyKdebugParser (_format_process)")
-    rec = interp.run(pk.module, fp, self_cls=pk)
-    tid = param(fp.args.args[1].arg)
-    ret = rec.return_term()
-    ok = False
-    detail = sym.pretty(ret)[:200]
-    if ret.op == "ite":
-        cond, known, unknown = ret.a
-        atom, pol = render.norm_bool(cond)
-        if not pol:
-            known, unknown = unknown, known
-        if atom.op == "cmp" and atom.a[0] == "==":
-            known, unknown = unknown, known        # pid == sentinel  ->  then-branch is the unknown one
-        pid = None
-        if atom.op == "cmp" and atom.a[0] == "==":
-            l, r = atom.a[1], atom.a[2]
-            if l.op == "const":
-                l, r = r, l
-            if l.op == "call" and l.a[0] == T("attr", (tp_t, "get")) and len(l.a[1]) == 2 and l.a[1][0] == tid and r == l.a[1][1] \
-                    and r.op == "const":
-                pid = l
-        no_lookup = not any(x.op == "call" and x.a[0].op == "attr" and x.a[0].a[0] in (tp_t, pn_t) for x in sym.walk(unknown)) \
-            and not any(x.op == "sub" and x.a[0] in (tp_t, pn_t) for x in sym.walk(unknown))
-        names_pid = pid is not None and sym.contains(known, pid) and \
-            sym.contains(known, T("call", (T("attr", (pn_t, "get")), (pid, const("")), ())))
-        ok = pid is not None and no_lookup and names_pid and sym.contains(unknown, tid)
-    run.ob("R3", MOD, "PyKdebugParser._format_process", "undeclared thread is reported as unknown", ok,
-           "" if ok else "_format_process is not `pid = threads_pids.get(tid, S); known text with pids_names.get(pid, '') if pid != S "
-                         "else a text with the tid and no table lookup` with one sentinel S: an undeclared thread is attributed to "
-                         "a process", facts={"term": detail}, line=fp.lineno,
-           witness="a thread id absent from the thread map (and a pid equal to the mismatched sentinel)")
-    for conv_name, tid_src in (("_format_kevent", "tid"), ("_format_trace", ("ktraces", 0, "tid")), ("_format_callstack", "tid")):
-        name = BUILDER[conv_name]
-        fn = pk.methods[name]
-        rec = interp.run(pk.module, fn, self_cls=pk)
-        obj = param(fn.args.args[1].arg)
-        want = T("attr", (obj, "tid")) if tid_src == "tid" else T("attr", (T("sub", (T("attr", (obj, "ktraces")), const(0))), "tid"))
-        segs = render.flatten(accumulator_of(rec.return_term()))
-        col = [s for s in segs if s[0] == "alt" and s[1] == T("attr", (SELF, "show_process"))]
-        okc = bool(col) and any(sym.contains(h, T("call", (T("attr", (tp_t, "get")), (want, const(-1)), ())))
-                                or sym.contains(h, T("call", (T("attr", (tp_t, "get")), (want,), ())))
-                                or any(x.op == "call" and x.a[0] == T("attr", (tp_t, "get")) and x.a[1][:1] == (want,) for x in sym.walk(h))
-                                for h in render.holes(col[0][2]))
-        run.ob("R3", MOD, f"PyKdebugParser.{name}", "process column looks up the emitting thread", okc,
-               f"the process column of {name} is not computed from the emitting thread's id ({sym.pretty(want)})", line=fn.lineno)
+    def _unknown_thread_rules():
+        # ------------------------------------------------------------------ R3 unknown thread
+        fp = pk.methods.get("_format_process")
+        if fp is None:
+            # the helper every line builder calls with the emitting thread's id
+            kb_fn = pk.methods[BUILDER["_format_kevent"]]
+            kb_rec = interp.run(pk.module, kb_fn, self_cls=pk)
+            tid_arg = T("attr", (param(kb_fn.args.args[1].arg), "tid"))
+            cands = [c.func.a[1] for c in kb_rec.calls if c.func.op == "attr" and c.func.a[0] == SELF and c.args == (tid_arg,)
+                     and c.func.a[1] in pk.methods and c.where.endswith("." + kb_fn.name)]
+            fp = pk.methods.get(cands[0]) if cands else None
+        if fp is None:
+            raise AnalysisError("anchor vanished: the process-column helper of PyKdebugParser (_format_process)")
+        rec = interp.run(pk.module, fp, self_cls=pk)
+        tid = param(fp.args.args[1].arg)
+        ret = rec.return_term()
+        ok = False
+        detail = sym.pretty(ret)[:200]
+        if ret.op == "ite":
+            cond, known, unknown = ret.a
+            atom, pol = render.norm_bool(cond)
+            if not pol:
+                known, unknown = unknown, known
+            if atom.op == "cmp" and atom.a[0] == "==":
+                known, unknown = unknown, known        # pid == sentinel  ->  then-branch is the unknown one
+            pid = None
+            if atom.op == "cmp" and atom.a[0] == "==":
+                l, r = atom.a[1], atom.a[2]
+                if l.op == "const":
+                    l, r = r, l
+                if l.op == "call" and l.a[0] == T("attr", (tp_t, "get")) and len(l.a[1]) == 2 and l.a[1][0] == tid and r == l.a[1][1] \
+                        and r.op == "const":
+                    pid = l
+            no_lookup = not any(x.op == "call" and x.a[0].op == "attr" and x.a[0].a[0] in (tp_t, pn_t) for x in sym.walk(unknown)) \
+                and not any(x.op == "sub" and x.a[0] in (tp_t, pn_t) for x in sym.walk(unknown))
+            names_pid = pid is not None and sym.contains(known, pid) and \
+                sym.contains(known, T("call", (T("attr", (pn_t, "get")), (pid, const("")), ())))
+            ok = pid is not None and no_lookup and names_pid and sym.contains(unknown, tid)
+        run.ob("R3", MOD, "PyKdebugParser._format_process", "undeclared thread is reported as unknown", ok,
+               "" if ok else "_format_process is not `pid = threads_pids.get(tid, S); known text with pids_names.get(pid, '') if pid != S "
+                             "else a text with the tid and no table lookup` with one sentinel S: an undeclared thread is attributed to "
+                             "a process", facts={"term": detail}, line=fp.lineno,
+               witness="a thread id absent from the thread map (and a pid equal to the mismatched sentinel)")
+        for conv_name, tid_src in (("_format_kevent", "tid"), ("_format_trace", ("ktraces", 0, "tid")), ("_format_callstack", "tid")):
+            name = BUILDER[conv_name]
+            fn = pk.methods[name]
+            rec = interp.run(pk.module, fn, self_cls=pk)
+            obj = param(fn.args.args[1].arg)
+            want = T("attr", (obj, "tid")) if tid_src == "tid" else T("attr", (T("sub", (T("attr", (obj, "ktraces")), const(0))), "tid"))
+            segs = render.flatten(accumulator_of(rec.return_term()))
+            col = [s for s in segs if s[0] == "alt" and s[1] == T("attr", (SELF, "show_process"))]
+            okc = bool(col) and any(sym.contains(h, T("call", (T("attr", (tp_t, "get")), (want, const(-1)), ())))
+                                    or sym.contains(h, T("call", (T("attr", (tp_t, "get")), (want,), ())))
+                                    or any(x.op == "call" and x.a[0] == T("attr", (tp_t, "get")) and x.a[1][:1] == (want,) for x in sym.walk(h))
+                                    for h in render.holes(col[0][2]))
+            run.ob("R3", MOD, f"PyKdebugParser.{name}", "process column looks up the emitting thread", okc,
+                   f"the process column of {name} is not computed from the emitting thread's id ({sym.pretty(want)})", line=fn.lineno)
+
+    if BUILDER is not None:
+        try:
+            _unknown_thread_rules()
+        except AnalysisError as ex:
+            deferred = deferred or ex
 
     # ------------------------------------------------------------------ R4 who may write
     PARSER_P = param("parser")
@@ -368,10 +381,39 @@ def check(repo: Repo, run: Run) -> None:
                                  f"{[(t_, decoders.fmt_atoms(k_), decoders.fmt_atoms(v_)) for t_, k_, v_ in contract]}: the wrong "
                                  f"thread or process is (re)declared", facts={"key": decoders.fmt_atoms(ka), "value": decoders.fmt_atoms(va)},
                    line=e0.lineno)
+    # the pending data record a string record names: the string decoders read `<pending>.pid`; the data decoders must
+    # have put the record's pid word there (new-thread: word 1 - word 0 is the new thread's id; exec: word 0), under the
+    # emitting thread's id
+    PENDING = {"TRACE_DATA_NEWTHREAD": ("last_data_newthread", ("START", 1)), "TRACE_DATA_EXEC": ("last_data_exec", ("START", 0))}
+    n_pending = 0
+    for e_ in D.entries():
+        if e_.key not in PENDING:
+            continue
+        slot, want_pid = PENDING[e_.key]
+        d = D.decode(e_)
+        stores = [ef for ef in d.rec.effects if ef.kind == "sub-store"
+                  and (ef.path if ef.path is not None else ef.base) == T("attr", (decoders.PARSER, slot))]
+        for ef in stores:
+            n_pending += 1
+            v = ef.value
+            pid_field = dict(v.a[1]).get("pid") if v is not None and v.op == "new" else None
+            got = {a for a in decoders.classify(pid_field) if a[0] != "EXT"} if pid_field is not None else None
+            key_atoms = {a for a in decoders.classify(ef.key) if a[0] != "EXT"} if isinstance(ef.key, T) else None
+            ok = got == {want_pid} and key_atoms == {("START.tid",)}
+            run.ob("R4", e_.module.name, e_.func_name, f"decoder:{e_.key}: pending record kept under the emitting thread, pid = word {want_pid[1]}",
+                   ok, "" if ok else
+                   f"the record kept in parser.{slot}[{sym.pretty(ef.key)[:30]}] has pid = "
+                   f"{sym.pretty(pid_field)[:40] if pid_field is not None else '?'} (from {decoders.fmt_atoms(got) if got else '?'}); the "
+                   f"record's pid is START word {want_pid[1]}: the name that the following string record carries is attached to the "
+                   f"wrong process id", line=ef.lineno,
+                   witness="a new-thread / exec data record followed by its string record on the same thread")
+    run.floor("R4", "pending data records checked", n_pending, 2)
     missing = [k for k in REVIEWED_WRITERS if k not in found_writers]
     run.ob("R4", MOD, "whole package", "every reviewed writer still updates the tables", not missing,
            f"{missing} no longer update the thread/process tables: later lines name a stale process",
            facts={"writers": sorted(found_writers)})
+    if deferred is not None:
+        raise deferred
 
 
 def _same_or_default(v: T, p_: T) -> bool:
